@@ -95,6 +95,9 @@ class ServiceAccessPoint(object):
             if len(self.sock_list) == 0:
                 # completely remove this sap
                 self.llc.sap[self.addr] = None
+                for name in [n for n, a in self.llc.snl.items()
+                             if a == self.addr]:
+                    del self.llc.snl[name]
 
     def send(self, send_pdu):
         self.send_list.append(send_pdu)
